@@ -75,9 +75,16 @@ def run(ctx: Ctx, env):
                          "name eq 'x\uff07 OR 1=1 --' (a compatibility character that normalises to a quote)")
                 continue
             txt = t.text()
-            if (t.owner, txt) in seen:
+            # the same text with other kinds of node behind its raw pieces is another template (a String there is what matters)
+            sig = []
+            for tok0 in t.st.toks:
+                for piece0 in (tok0.value or []) if tok0.kind in ("string", "qident") else ([tok0.value] if tok0.kind == "raw" else []):
+                    if not isinstance(piece0, str) and piece0 and piece0[0] == "dyn":
+                        o0 = raw_origin(piece0[1])
+                        sig.append(tuple(sorted(o0.kinds)) if o0 else ())
+            if (t.owner, txt, tuple(sig)) in seen:
                 continue
-            seen.add((t.owner, txt))
+            seen.add((t.owner, txt, tuple(sig)))
             handler_q = t.path.entry.get("handler", f"{A.vcls}.{t.owner}")
             owner_short = ".".join(handler_q.rsplit(".", 2)[-2:])
             for tok in t.st.toks:
